@@ -79,7 +79,8 @@ Definition big_op (op : bop) (a b : Z) : ores :=
   | OAnd => RInt (norm (Z.land a b)) | OOr => RInt (norm (Z.lor a b)) | OXor => RInt (norm (Z.lxor a b))
   | OLt => RBool (a <? b) | OLe => RBool (a <=? b) | OEq => RBool (a =? b)
   | ONe => RBool (negb (a =? b)) | OGt => RBool (a >? b) | OGe => RBool (a >=? b)
-  | OPow => if b <? 0 then RFloat else RInt (norm (big_pow a b))
+  | OPow => if b <? 0 then (if a =? 0 then RErr "ZeroDivisionError" else RFloat)   (* Float.M__pow__: floatPow *)
+            else RInt (norm (big_pow a b))
   end.
 
 (* Int.M__op__(other) where other is a py.Int (Some b) or something convertToInt rejects (None) *)
